@@ -265,6 +265,11 @@ def run(E: Engine, rep: Report, tier: str) -> dict:
         skips = skip == ("const", True)
         ti = arg(dp[-1], -1, "ti")
         mt = is_(ti, "self.get_duration(channel, include_fall_time=Q_f)") or (is_(ti, "self.get_duration(channel)") and {"Q_f": ("const", False)})
+        if mt is None and any(is_(t, "self._last(channel).ti") is not None or is_(t, "self._schedule[channel][-1].ti") is not None for t in sym.subterms(ti)):
+            # the start is read from the buffer slot that enable_eom actually scheduled: by construction it starts where the
+            # buffer starts, whether or not enable_eom waited for the fall time (decided in detail by C15)
+            rep.ok("FLOW", f"Sequence.{mname}|drift-window-starts-with-buffer", "drift start read from the scheduled buffer slot", E.where(m_))
+            continue
         flag = mt["Q_f"] == ("const", True) if mt and mt["Q_f"][0] == "const" else None
         rep.check(flag is not None and flag == (not skips) and (skip is None or skip[0] == "const"), "FLOW", f"Sequence.{mname}|drift-window-starts-with-buffer", f"drift start uses include_fall_time={not skips} because enable_eom is called with _skip_wait_for_fall={skips}",
                   f"in {mname} the phase-drift window starts at {sh(ti, 80)} while the buffer is added with _skip_wait_for_fall={sh(skip)}: the drift accumulated between the two instants is not corrected", E.where(m_))
